@@ -307,4 +307,88 @@ SubDef def = [] {
   return d;
 }();
 VERIF_REGISTER(&def);
+
+// ---------------------------------------------------------------------------------------------------------------
+// sub "many_loops": 1..48 loops (alternating back-ends) owned by ONE thread, one event per loop; a delivery must
+// reach every loop that has an enabled subscriber, however many loops there are ("in every loop that has one").
+// The loops are not run on threads: after raise() (thread-directed, so the handler has run when it returns) every
+// loop gets two non-blocking passes.
+enum { M_CFG, M_TOGGLE, M_RAISE, M_NOPS };
+std::string run_many(const Scenario &s, CaseInfo &info) {
+  const int kSigs = 2;
+  int nloops = 1, orig_kind = 1; unsigned masks_seed = 1;
+  for (auto &op : s.ops) if (op.code == M_CFG) { nloops = (int)op.in(0, 1, 48); orig_kind = (int)op.in(1, 1, 2); masks_seed = (unsigned)op.in(2, 1, 1 << 20); }
+  struct sigaction pre[kSigs], orig[kSigs];
+  for (int i = 0; i < kSigs; ++i) {
+    g_sentinel_calls[i] = 0;
+    struct sigaction sa; memset(&sa, 0, sizeof sa); sigemptyset(&sa.sa_mask);
+    if (orig_kind == 1) sa.sa_handler = SIG_IGN; else sa.sa_handler = sentinel_plain;
+    sigaction(sig_of(i), &sa, &pre[i]); sigaction(sig_of(i), nullptr, &orig[i]);
+  }
+  g_sentinel_bad = 0;
+  struct L { Loop *loop = nullptr; SignalEvent *ev = nullptr; unsigned mask = 1; bool enabled = false; int calls[kSigs] = {0, 0}, expect[kSigs] = {0, 0}; int wrong = 0; };
+  std::vector<L> ls(nloops);
+  unsigned g = masks_seed;
+  for (int l = 0; l < nloops; ++l) {
+    L &x = ls[l]; x.loop = Loop::New(l % 2 ? "select" : "epoll");
+    g = g * 1664525u + 1013904223u; x.mask = 1 + (g >> 16) % 3;      // {S0}, {S1} or both
+    x.ev = x.loop->newSignalEvent("c04m");
+    std::set<int> ss; for (int i = 0; i < kSigs; ++i) if (x.mask >> i & 1) ss.insert(sig_of(i));
+    x.ev->initialize(ss, tbox::event::Event::Mode::kPersist);
+    L *xp = &x;
+    x.ev->setCallback([xp](int signo) { bool f = false; for (int i = 0; i < 2; ++i) if (sig_of(i) == signo && (xp->mask >> i & 1)) { xp->calls[i]++; f = true; } if (!f) xp->wrong++; });
+    g = g * 1664525u + 1013904223u;
+    if ((g >> 16) % 8 != 0) { if (!x.ev->enable()) return "enable() returned false"; x.enabled = true; }
+  }
+  std::string err; char buf[300];
+  int sentinel_expect[kSigs] = {0, 0}; int max_subs = 0, raises = 0;
+  auto pump = [&] { for (int r = 0; r < 2; ++r) for (auto &x : ls) { x.loop->runNext([] {}, "nop"); x.loop->runLoop(Loop::Mode::kOnce); } };
+  auto subs_of = [&](int si) { int n = 0; for (auto &x : ls) if (x.enabled && (x.mask >> si & 1)) n++; return n; };
+  for (size_t k = 0; k < s.ops.size() && err.empty(); ++k) {
+    const Op &op = s.ops[k];
+    if (op.code == M_TOGGLE) { L &x = ls[op.in(0, 0, nloops - 1)]; bool ok = x.enabled ? x.ev->disable() : x.ev->enable(); x.enabled = !x.enabled; if (!ok) err = "enable()/disable() returned false"; }
+    else if (op.code == M_RAISE) {
+      int si = (int)op.in(0, 0, kSigs - 1);
+      int n = subs_of(si); max_subs = std::max(max_subs, n);
+      for (auto &x : ls) if (x.enabled && (x.mask >> si & 1)) x.expect[si]++;
+      if (orig_kind == 2) sentinel_expect[si]++;
+      raise(sig_of(si)); raises++;
+      pump();
+      for (int l = 0; l < nloops && err.empty(); ++l) for (int i = 0; i < kSigs; ++i) if (ls[l].calls[i] != ls[l].expect[i]) {
+        snprintf(buf, sizeof buf, "op %zu: after a delivery of signal #%d with %d loops subscribed (%d loops in all): the event of loop %d (%s, mask 0x%x, %s) has %d callbacks for signal #%d, expected %d", k, si, n, nloops, l, l % 2 ? "select" : "epoll", ls[l].mask, ls[l].enabled ? "enabled" : "disabled", ls[l].calls[i], i, ls[l].expect[i]); err = buf; break; }
+      for (int i = 0; i < kSigs && err.empty(); ++i) if (g_sentinel_calls[i].load() != sentinel_expect[i]) { snprintf(buf, sizeof buf, "op %zu: the previously installed handler ran %d time(s) for signal #%d, expected %d", k, g_sentinel_calls[i].load(), i, sentinel_expect[i]); err = buf; }
+    }
+    for (int i = 0; i < kSigs && err.empty(); ++i) if (subs_of(i) == 0) { struct sigaction cur; sigaction(sig_of(i), nullptr, &cur); std::string why; if (!same_action(cur, orig[i], why)) { snprintf(buf, sizeof buf, "op %zu: nobody subscribes signal #%d but its disposition is not the original one: %s", k, i, why.c_str()); err = buf; } }
+  }
+  for (auto &x : ls) { if (x.wrong && err.empty()) err = "callback for a signal the event never subscribed"; delete x.ev; }
+  for (int i = 0; i < kSigs && err.empty(); ++i) { struct sigaction cur; sigaction(sig_of(i), nullptr, &cur); std::string why; if (!same_action(cur, orig[i], why)) { snprintf(buf, sizeof buf, "after destroying all events: disposition of signal #%d is not the original one: %s", i, why.c_str()); err = buf; } }
+  for (auto &x : ls) delete x.loop;
+  for (int i = 0; i < kSigs; ++i) sigaction(sig_of(i), &pre[i], nullptr);
+  if (!err.empty()) return err;
+  info.cls_if(max_subs > 16, "delivery_to_more_than_16_loops");
+  info.cls_if(max_subs > 32, "delivery_to_more_than_32_loops");
+  info.cls_if(max_subs >= 2 && max_subs <= 16, "delivery_to_2_16_loops");
+  info.nontrivial = raises > 0 && max_subs >= 2;
+  return "";
+}
+
+SubDef def_many = [] {
+  SubDef d; d.name = "many_loops";
+  d.op_names = {"cfg", "toggle", "raise"};
+  d.op_arity = {3, 1, 1};
+  d.nt_rule = "history with a delivery that reaches enabled subscribers in >= 2 loops";
+  d.run = run_many;
+#ifndef VERIF_ENGINE_FUZZ
+  d.gen = [] {
+    auto cfg = mkop(M_CFG, {rc::gen::weightedOneOf<int64_t>({{2, range(1, 8)}, {2, range(9, 24)}, {2, range(25, 48)}}), range(1, 2), range(1, 1 << 20)});
+    auto opg = rc::gen::weightedOneOf<Op>({
+      {3, mkop(M_RAISE, {range(0, 1)})},
+      {2, mkop(M_TOGGLE, {range(0, 47)})},
+    });
+    return scenarioOf(fixedOps({cfg, mkop(M_RAISE, {range(0, 1)})}), opsOf(opg));
+  };
+#endif
+  return d;
+}();
+VERIF_REGISTER(&def_many);
 }  // namespace
